@@ -324,8 +324,11 @@ def cross_run_state(idx: "Index", prefix: str = ""):
                     tgt, val = st.targets[0], st.value
                 elif isinstance(st, ast.AnnAssign):
                     tgt, val = st.target, st.value
+                # (a dataclass refuses a mutable default; attrs does not: `x: Dict = {}` in an attrs class is ONE object
+                # shared by every instance)
+                decos_ = [(dotted(d_.func) if isinstance(d_, ast.Call) else dotted(d_)) or "" for d_ in c.decorator_list]
                 if isinstance(tgt, ast.Name) and val is not None and isinstance(val, (ast.Dict, ast.List, ast.Set)) \
-                        and not c.decorator_list:
+                        and not any(x.split(".")[-1] == "dataclass" for x in decos_):
                     for pre in (cname, "self", "cls"):
                         shared[f"{pre}.{tgt.id}"] = ("class", st.lineno)
         nstate += len(shared)
